@@ -56,7 +56,7 @@ def classes : List Cls := [
   c "SNAP" .be 8 [],
   c "VXLAN" .be 8 [],
   c "STP" .be 35 [],
-  c "PPPoE" .be 6 [],
+  c "PPPoE" .be 6 [(32, 16)],
   c "SLL" .be 16 [],
   c "Dot3" .be 14 [(96, 16)],
   c "IPSecAH" .be 12 [(8, 8)],
